@@ -4,13 +4,15 @@
   Static part (proved for every schedule): the generated verifier table cuts whenever one side of a
   shared component or resource is mutable; hence every group the greedy stager produces is
   pairwise compatible.  Dynamic part: `Claim::try_merge` (generated 3×3 table) succeeds only when
-  there is no write/any overlap, so an add-on is accepted only against claims it does not conflict
-  with.  PARTIAL: that the stage's claim map holds the merge of *all* running tasks' claims for an
-  archetype (`addClaims`) is modelled and compared with the real fork/join log by the
-  correspondence check, not yet proved; tasks are atomic in the model (instruction-level
-  interleavings of data-race-free tasks are the Rust memory model's business).
+  there is no write/any overlap; the stage's claim map holds, per archetype, the *exact join* of the
+  claims of all running tasks matching it (`MapExact`, `Lemmas/SchedDyn`), so a next-stage task is
+  started early iff it conflicts with no running task on any archetype both match
+  (`C08_add_on_decision_exact`) and every phase of every stage is conflict free
+  (`C08_phase_conflict_free`).  The model's phases are compared with the real fork/join log by the
+  correspondence check.  Tasks are atomic in the model: instruction-level interleavings of
+  data-race-free tasks are the Rust memory model's business (PARTIAL in that sense only).
 -/
-import BroodModel.Lemmas.Sched
+import BroodModel.Lemmas.SchedDyn
 
 namespace Brood
 open Static Generated
@@ -45,6 +47,46 @@ theorem C08_stages_compatible (ts : List Task) :
     ∀ g ∈ stages verifierTable mergerTable ts, Compatible g :=
   stagesAux_compatible ts [] (by intro i hi; simp at hi)
 
+/-- **The run-time add-on decision is exact**: with the stage's claim map being the exact join of
+the running tasks' claims, a next-stage task's component claims are accepted iff they conflict
+with the claims of no running task on any archetype both match. -/
+theorem C08_add_on_decision_exact {n : Nat} {masks : List Mask} (hm : masks.Nodup) {cm : ClaimMap}
+    {ts : List Task} (me : MapExact n masks cm ts) (u : Task) :
+    ((tryAddClaims claimTryMerge n masks u cm).isSome = true ↔
+      ∀ k ∈ masks, u.matchesArch k = true → ∀ t ∈ ts, t.matchesArch k = true →
+        vecOk (u.claimVec n) (t.claimVec n) = true) := by
+  obtain ⟨e1, e2⟩ := tryAdd_exact hm me u
+  constructor
+  · intro h
+    cases hc : tryAddClaims claimTryMerge n masks u cm with
+    | none => rw [hc] at h; cases h
+    | some cm' => exact (e1 cm' hc).1
+  · intro h
+    cases hc : tryAddClaims claimTryMerge n masks u cm with
+    | some _ => rfl
+    | none =>
+      obtain ⟨k, hk, t, ht, h1, h2, h3⟩ := e2 hc
+      rw [h k hk h1 t ht h2] at h3; cases h3
+
+/-- **Every phase is conflict free** (run time): the tasks of a stage produced by the static
+stager that have not run yet, together with the next-stage tasks started early as add-ons, may
+all run at the same time — pairwise, no shared resource and no component of a common archetype is
+claimed mutably by one and at all by the other.  For every set of archetypes, every pattern of
+tasks that already ran, every next stage. -/
+theorem C08_phase_conflict_free {n nres : Nat} {masks : List Mask} (hm : masks.Nodup)
+    (ts : List Task) (hwf : ∀ t ∈ ts, t.WF) (stage : List Task)
+    (hs : stage ∈ stages verifierTable mergerTable ts) (next : List Task) (hasRun : List Bool) :
+    ((((List.zip stage hasRun).filter (fun p => !p.2)).map (·.1)) ++
+        accepted next (runStage claimTryMerge n nres masks stage hasRun next).2).Pairwise
+      (fun a b => TaskOk n nres masks b a) := by
+  have hc := C08_stages_compatible ts stage hs
+  have hmem : ∀ t ∈ stage, t ∈ ts := by
+    intro t ht
+    have := stages_flatten verifierTable mergerTable ts
+    have hm' : t ∈ (stages verifierTable mergerTable ts).flatten := List.mem_flatten.mpr ⟨stage, hs, ht⟩
+    rw [this] at hm'; exact hm'
+  exact runStage_phase_safe hm stage next hasRun hc (fun t ht => hwf t (hmem t ht))
+
 /-- Non-vacuity: reader then writer of one component are never grouped, also through entry views. -/
 example :
     (stages verifierTable mergerTable
@@ -61,3 +103,5 @@ end Brood
 #print axioms Brood.C08_try_merge_sound
 #print axioms Brood.C08_try_merge_keeps_writes
 #print axioms Brood.C08_stages_compatible
+#print axioms Brood.C08_add_on_decision_exact
+#print axioms Brood.C08_phase_conflict_free
